@@ -13,6 +13,7 @@ From SV Require Import proofs.NglobBackref.
 From SV Require Import proofs.NglobRefute.
 From SV Require Import proofs.NglobNamed.
 From SV Require Import proofs.NglobShape.
+From SV Require Import proofs.NglobCorrect.
 Import ListNotations.
 Open Scope N_scope.
 
@@ -116,13 +117,46 @@ Example C17_example_backref :
   end.
 Proof. vm_compute. repeat split. Qed.
 
-(* (3, partial) A named wildcard in place of an anonymous `*`: on the level of the regex
-   semantics, wrapping one part of a part list into a named group that no later part refers to
-   never changes which strings are accepted.  The compiler gives a star-like named wildcard the
-   same post-processing as a bare `*` (same part with the group around it, see the Example; the
-   implementation oracle O3 checks acceptance of both forms on generated patterns); what is NOT
-   proved is that equality of the two compiled part lists for all patterns, nor
-   compile_regex_correct on a fragment (design.d/C17.md). *)
+(* (3) On the fragment F1 the compiled regex IS the reference semantics.  F1 ([f1], decidable):
+   literals, `?`, classes that cannot match the separator, `*` and default named wildcards with
+   pairwise distinct names, no two of the latter two kinds next to each other, no `**`.
+   For every such pattern and every canonical path (not empty, no leading separator, no two
+   separators in a row), re.fullmatch of the compiled regex answers exactly what [nglob_ref false]
+   answers: the path rules (a complete component is never empty; only a pattern that ends with a
+   separator or with a star-like wildcard matches a directory) plus one specification regex per
+   token with no context-dependent rule.  So on F1 the enclosed rule, the trailing rule and the
+   appended `/?` of convert_nglob_to_regex implement the documentation exactly.  The fragment is
+   tight in the directions the refutations below show (negated classes, neighbouring wildcards,
+   `**/` before a trailing star, trailing back-references are excluded and are defects). *)
+Theorem C17_compile_regex_correct_partial :
+  forall (p : str) (subs : subs_t) (ps : list re) (s : str),
+    f1 p subs = true -> conv_regex p subs = COk ps -> wf_path s = true ->
+    nglob_ref false p subs s = Some (accepts (rcat ps) s).
+Proof. exact compile_regex_correct_partial. Qed.
+
+(* Replacing an anonymous `*` by a named wildcard (both patterns in F1, so the name is new and
+   has no sub-pattern) never changes which canonical paths the compiled regex accepts. *)
+Theorem C17_named_equals_star_partial :
+  forall (p1 p2 : str) (subs : subs_t) (pre post : list tok) (n : str) (ps1 ps2 : list re) (s : str),
+    tokenize p1 = pre ++ TStar :: post -> tokenize p2 = pre ++ TName n :: post ->
+    f1 p1 subs = true -> f1 p2 subs = true ->
+    conv_regex p1 subs = COk ps1 -> conv_regex p2 subs = COk ps2 ->
+    wf_path s = true ->
+    accepts (rcat ps2) s = accepts (rcat ps1) s.
+Proof. exact named_equals_star_partial. Qed.
+
+(* Non-vacuity: `src/*/m_${*n}.[ch]?` is in F1, and so is the variant with `*` in place of ${*n}. *)
+Example C17_example_f1 :
+  f1 [115;114;99;47;42;47;109;95;36;123;42;110;125;46;91;99;104;93;63] [] = true
+  /\ f1 [115;114;99;47;42;47;109;95;42;46;91;99;104;93;63] [] = true
+  /\ wf_path [115;114;99;47;97;47;109;95;120;46;99;49] = true
+  /\ nglob_ref false [115;114;99;47;42;47;109;95;36;123;42;110;125;46;91;99;104;93;63] [] [115;114;99;47;97;47;109;95;120;46;99;49] = Some true
+  /\ nglob_ref false [115;114;99;47;42;47;109;95;36;123;42;110;125;46;91;99;104;93;63] [] [115;114;99;47;47;109;95;120;46;99;49] = Some false
+  /\ f1 [42;91;33;97;93] [] = false /\ f1 [100;47;42;36;123;42;110;125] [] = false /\ f1 [100;47;42;42;47;42] [] = false.
+Proof. vm_compute. repeat split. Qed.
+
+(* The same at the level of the regex semantics, for arbitrary part lists: wrapping one part into
+   a named group that no later part refers to never changes which strings are accepted. *)
 Theorem C17_named_group_wrapping_preserves_acceptance_partial :
   forall (ps1 : list re) (a : re) (ps2 : list re) (n : str) (s : str),
     forallb (noref n) ps2 = true ->
@@ -138,8 +172,8 @@ Proof. vm_compute. repeat split. Qed.
 (* The full statement of the property on the model: matcher = documented semantics, recorded set =
    accepted existing paths = standard glob (without repeated names) on every finite tree, a named
    wildcard in place of an anonymous `*` never changes acceptance.  NOT proved; it is false of the
-   current code (next theorems).  Proved parts: (1), (2) above; see design.d/C17.md for what is
-   missing (compile_regex_correct on a fragment, candidate completeness). *)
+   current code (next theorems).  Proved parts: (1), (2), (3 on F1) above; see design.d/C17.md for
+   what is missing (patterns outside F1, candidate completeness of the glob translation). *)
 Definition C17_full : Prop :=
   forall (p : str) (subs : subs_t) (g : ng) (gp : str),
     ng_make p subs = COk g -> conv_glob p subs = COk gp ->
